@@ -83,6 +83,9 @@ macro_rules! forward_display {
         impl fmt::$impl for NInt {
             fn fmt(&self, formatter: &mut fmt::Formatter) -> fmt::Result {
                 match self {
+                    // i64's hex/binary/octal formatting is two's complement; go through BigInt
+                    // for negatives so the rendering doesn't depend on the representation
+                    NInt::Small(n) if *n < 0 => fmt::$impl::fmt(&BigInt::from(*n), formatter),
                     NInt::Small(n) => fmt::$impl::fmt(n, formatter),
                     NInt::Big(n) => fmt::$impl::fmt(n, formatter),
                 }
